@@ -68,7 +68,7 @@ func modeFor(prop string) (*histMode, error) {
 			oracle: baseOracle}, nil
 	case "C03":
 		return &histMode{flavors: []string{"array", "arraymove", "text", "object", "mixed", "tree"}, twin: "nogc",
-			gen: hist.GenConfig{MinClients: 2, MaxClients: 4, MinSteps: 8, MaxSteps: 40, PushOnly: true, Inflight: true},
+			gen: hist.GenConfig{Park: true, MinClients: 2, MaxClients: 4, MinSteps: 8, MaxSteps: 40, PushOnly: true, Inflight: true},
 			oracle: func(h *hist.History, o *hist.Outcome) []hist.Problem {
 				return append(baseOracle(h, o), hist.CheckConvergence(o)...)
 			}}, nil
@@ -266,6 +266,13 @@ func runHist(cfg *config) error {
 		}
 		sig["tree_split_undo"] = splitUndo
 		sig["all_optout"] = small.AllOptOut
+		parked := false
+		for _, st := range small.Steps {
+			if st.Op == "Sq" {
+				parked = true
+			}
+		}
+		sig["parked_sync"] = parked
 		// did a storage fault fire after the pushed changes were stored and before the client's
 		// checkpoint was (finding P8)?
 		window := false
